@@ -607,16 +607,22 @@ def cleanup (c : Conn) (b : Broker) : Broker :=
   | none => b
   | some tc => unsubscribeTopic tc.1 tc.2 c.id b
 
-/-- One iteration of `IOLoop` (plus its exit path when the command was fatal). A connection whose
-loop has exited executes nothing any more. -/
+structure St where
+  conn : Conn
+  broker : Broker
+
+/-- One iteration of `IOLoop`: the command's own result. A connection whose loop has exited
+executes nothing any more. -/
 def step (E : Ext) (cfg : Config) (M : Matcher) (ans : Request → Option Resp) (now : Int)
     (c : Conn) (b : Broker) (cmd : Cmd) : Res :=
-  if c.closed then { conn := c, broker := b, replies := [], close := true, query := none }
-  else if (exec E cfg M ans now c b cmd).close then
-    { exec E cfg M ans now c b cmd with
-      conn := { (exec E cfg M ans now c b cmd).conn with closed := true },
-      broker := cleanup (exec E cfg M ans now c b cmd).conn (exec E cfg M ans now c b cmd).broker }
+  if c.closed then { conn := c, broker := b, replies := [], close := false, query := none }
   else exec E cfg M ans now c b cmd
+
+/-- What the connection and the broker look like once `IOLoop` is ready for the next line: after a
+fatal error the loop leaves through its exit path (`cleanup`). -/
+def after (r : Res) : St :=
+  if r.close then { conn := { r.conn with closed := true }, broker := cleanup r.conn r.broker }
+  else { conn := r.conn, broker := r.broker }
 
 /-- The client goes away (EOF on the socket): `IOLoop` leaves through the same exit path. -/
 def disconnect (c : Conn) (b : Broker) : Conn × Broker :=
@@ -631,15 +637,13 @@ inductive Ev where
   | cmd (now : Int) (ans : Request → Option Resp) (c : Cmd)
   | env (b : Broker)
 
-structure St where
-  conn : Conn
-  broker : Broker
-
-/-- One recorded step of a history. -/
+/-- One recorded step of a history: the state before, the event, the command's own result and
+the state afterwards (which includes the exit path when the command was fatal). -/
 structure Rec where
   pre : St
   ev : Ev
   res : Res            -- for `env` events: no replies, broker replaced
+  post : St
 
 def stepEv (E : Ext) (cfg : Config) (M : Matcher) (s : St) (e : Ev) : Res :=
   match e with
@@ -649,8 +653,8 @@ def stepEv (E : Ext) (cfg : Config) (M : Matcher) (s : St) (e : Ev) : Res :=
 def trace (E : Ext) (cfg : Config) (M : Matcher) (s : St) : List Ev → List Rec
   | [] => []
   | e :: es =>
-    { pre := s, ev := e, res := stepEv E cfg M s e } ::
-      trace E cfg M { conn := (stepEv E cfg M s e).conn, broker := (stepEv E cfg M s e).broker } es
+    { pre := s, ev := e, res := stepEv E cfg M s e, post := after (stepEv E cfg M s e) } ::
+      trace E cfg M (after (stepEv E cfg M s e)) es
 
 /-! ## HTTP (nsqd/http.go ServeHTTP, nsqd/nsqd.go Main) -/
 
